@@ -387,9 +387,9 @@ func (w *World) HeapWF(h, version, top string) []string {
 	switch info.t.Underlying().(type) {
 	case *types.Map, *types.Chan, *types.Pointer:
 		// (addresses of inline struct fields are negative and satisfy this trivially)
-		acc = func(x string) string { return "(<= " + x + " " + top + ")" }
+		acc = func(x string) string { return "(<= (fa_root " + x + ") " + top + ")" }
 	case *types.Slice:
-		acc = func(x string) string { return "(and (<= 0 (s-arr " + x + ")) (<= (s-arr " + x + ") " + top + "))" }
+		acc = func(x string) string { return "(and (<= 0 (s-arr " + x + ")) (<= (fa_root (s-arr " + x + ")) " + top + "))" }
 	default:
 		if bits, ok := isUnsigned(info.t); ok {
 			acc = func(x string) string { return "(and (<= 0 " + x + ") (< " + x + " " + pow2(bits) + "))" }
@@ -439,7 +439,7 @@ func (w *World) Prelude() string {
 	}
 	b.WriteString("(declare-fun AllocBase () Int)\n(assert (> AllocBase 0))\n")
 	b.WriteString("(declare-fun fa_tag (Int) Int)\n(declare-fun fa_base (Int) Int)\n(declare-fun fa_root (Int) Int)\n")
-	b.WriteString("(define-fun oldaddr ((a Int)) Bool (or (and (> a 0) (<= a AllocBase)) (and (< a 0) (<= (fa_root a) AllocBase))))\n")
+	b.WriteString("(define-fun oldaddr ((a Int)) Bool (and (not (= a 0)) (<= (fa_root a) AllocBase)))\n")
 	b.WriteString("(declare-fun strlen (Int) Int)\n")
 	b.WriteString("(declare-fun strcat (Int Int) Int)\n")
 	names := append([]string{}, w.funOrder...)
